@@ -1,0 +1,47 @@
+"""
+Escaping helpers for placing text taken from an OpenAPI document into generated Python source.
+
+Spec text (descriptions, enum values, property/parameter names, tags, media types, ...) must only ever
+appear in generated code as inert string-literal, docstring or comment content, whatever characters it contains.
+"""
+
+__all__ = ["python_string_literal", "escape_docstring_text", "single_line_comment"]
+
+
+def python_string_literal(value: str) -> str:
+    """
+    Render ``value`` as a double-quoted Python string literal that evaluates to exactly ``value``.
+
+    Backslashes and double quotes are escaped, non-printable characters (newlines, control characters,
+    Unicode line separators, ...) are written as escape sequences, everything else is kept readable.
+    """
+    parts: list[str] = []
+    for ch in str(value):
+        if ch == "\\":
+            parts.append("\\\\")
+        elif ch == '"':
+            parts.append('\\"')
+        elif ch.isprintable():
+            parts.append(ch)
+        else:
+            parts.append(repr(ch)[1:-1])
+    return '"' + "".join(parts) + '"'
+
+
+def escape_docstring_text(text: str, at_end: bool = False) -> str:
+    """
+    Make ``text`` safe for the inside of a triple-double-quoted docstring.
+
+    Backslashes are doubled (so escape-like sequences stay literal text), NUL characters are written as
+    ``\\x00`` and triple quotes are broken up. With ``at_end`` the text is directly followed by the closing
+    quotes, so trailing double quotes are escaped as well.
+    """
+    safe = text.replace("\\", "\\\\").replace("\x00", "\\x00")
+    trailing_quotes = len(safe) - len(safe.rstrip('"')) if at_end else 0
+    body = safe[: len(safe) - trailing_quotes].replace('"""', '\\"\\"\\"')
+    return body + '\\"' * trailing_quotes
+
+
+def single_line_comment(text: str) -> str:
+    """Collapse ``text`` onto one physical line so it can follow a ``#`` (all line boundaries become spaces)."""
+    return " ".join(text.replace("\x00", "").splitlines())
